@@ -1,6 +1,8 @@
 package props
 
 import (
+	"fmt"
+	"strings"
 	"testing"
 
 	"pgregory.net/rapid"
@@ -39,6 +41,47 @@ func probes() []*hx.N {
 	out = append(out, hx.Text("|"), hx.Obj(hx.Prop(hx.Var("forloop"), "index")), hx.Text("|"), hx.Obj(hx.Flt(hx.Var("a"), "join", hx.LStr(","))))
 	return out
 }
+
+// ---- a name bound to a value that changes during the render (a Drop over live state), shadowed by a loop ----
+
+// liveDrop presents the current value of a counter that the tick filter advances.
+type liveDrop struct{ p *int }
+
+func (d liveDrop) ToLiquid() any { return *d.p }
+
+type c12LiveCase struct {
+	Tag  string `json:"tag"`  // for | tablerow
+	N    int    `json:"n"`    // iterations
+	Body int    `json:"body"` // 0 empty, 1 break, 2 continue, 3 a nested loop shadowing the name again, 4 prints the loop variable
+}
+
+var c12LiveBodies = []string{"", "{% break %}", "{% continue %}", "{% for cnt in (7..8) %}{% endfor %}", "{{ cnt }}"}
+
+var c12Live = hx.Define("c12.shadowed-live-value", func(c *c12LiveCase, s *hx.Sub) *hx.Violation {
+	ticks := 0
+	eng := newEngine(&ticks)
+	body := c12LiveBodies[c.Body%len(c12LiveBodies)]
+	src := fmt.Sprintf("{{ cnt }}{{ 0 | tick }}{{ cnt }}{%% %s cnt in (1..%d) %%}%s{%% end%s %%}|{{ 0 | tick }}{{ cnt }}", c.Tag, c.N, body, c.Tag)
+	o := hx.RenderWith(eng, src, map[string]any{"cnt": liveDrop{&ticks}})
+	if o.Panic != nil {
+		return hx.V("panic@"+o.Panic.Site, "%s: %v", src, o.Panic)
+	}
+	if !o.OK() {
+		return hx.V("c12:live-error", "%s failed: %v", src, o.Err)
+	}
+	// before the loop the name reads 0, then (one tick later) 1; after the loop and one more tick it reads 2:
+	// the name is again bound to what it was bound to before the loop, a value that moves with the counter
+	out := rowTags.ReplaceAllString(o.Out, "")
+	pre, post, _ := strings.Cut(out, "|")
+	if !strings.HasPrefix(pre, "001") || post != "02" {
+		return hx.V("c12:not-restored-live", "%s with cnt bound to a Drop over a counter that the tick filter advances renders %q; expected 001...|02: after the loop the name again has the value it had before the loop (the Drop, whose value is then 2)", src, o.Out)
+	}
+	s.NT()
+	if s.WantSample() {
+		s.Sample(map[string]any{"template": src, "output": o.Out})
+	}
+	return nil
+})
 
 type c12CapCase struct {
 	P  *hx.Program `json:"p"`
@@ -91,6 +134,19 @@ func TestC12(t *testing.T) {
 			t.Fatalf("%s", v.Message)
 		}
 	})
+
+	live := c12Live.On(col, "exhaustive: a name bound to a Drop over live state (its value is a counter that a filter advances) is read, the counter advances, it is read again, a for / tablerow loop over 0..2 items shadows the name (empty body, break, continue, a nested loop shadowing it again, a body printing the loop variable), the counter advances, the name is read: oracle 001...|02 - after the loop the name again has the value it had before. Distinct by construction", true)
+	k := 0
+	for _, tag := range []string{"for", "tablerow"} {
+		for n := 0; n <= 2; n++ {
+			for b := range c12LiveBodies {
+				k++
+				if env.Mine(k) {
+					live.Run(&c12LiveCase{Tag: tag, N: n, Body: b})
+				}
+			}
+		}
+	}
 
 	capt := c12Capture.On(col, "rapid: any self-contained fragment F from the general generator (block-balanced, no break/continue escaping F), with random whitespace-control hyphens; metamorphic oracle: render(F) == render({% capture cv %}F{% endcapture %}{{ cv }}), both fail or equal bytes. Non-trivial: >= 3 nodes, renders successfully to non-empty output; distinct by fragment+bindings", false)
 	prof2 := hx.FullProfile()
